@@ -3,6 +3,7 @@
 package app
 
 import (
+	"math"
 	"sort"
 	"testing"
 	"time"
@@ -67,12 +68,14 @@ type vPos struct {
 	Prio int64  `json:"prio"`
 }
 
-func vEmitList(out *verifh.Out, ps []nodePosition, boundS int64, from string) {
+// lags and the bound are floats of seconds in the code; the trace carries them in milliseconds (the model only compares and
+// subtracts them, so the unit does not matter as long as it is the same everywhere)
+func vEmitList(out *verifh.Out, ps []nodePosition, boundMs int64, from string) {
 	jp := make([]vPos, len(ps))
 	for i, p := range ps {
-		jp[i] = vPos{p.host, vSetJSON(p.gtidset), int64(p.lag), p.priority}
+		jp[i] = vPos{p.host, vSetJSON(p.gtidset), int64(math.Round(p.lag * 1000)), p.priority}
 	}
-	rec := map[string]any{"k": "c14", "pos": jp, "bound": boundS, "from": from}
+	rec := map[string]any{"k": "c14", "pos": jp, "bound": boundMs, "from": from}
 	if len(ps) > 0 {
 		h, _, sb := findMostRecentNodeAndDetectSplitbrain(ps)
 		rec["mr_host"], rec["mr_split"] = h, sb
@@ -89,7 +92,7 @@ func vEmitList(out *verifh.Out, ps []nodePosition, boundS int64, from string) {
 		cand = filterOutNodeFromPositions(ps, from)
 	}
 	// the recursion is not guaranteed to terminate for a negative bound; the harness never passes one
-	h, err := getMostDesirableNode(vNopLogger(), cand, time.Duration(boundS)*time.Second)
+	h, err := getMostDesirableNode(vNopLogger(), cand, time.Duration(boundMs)*time.Millisecond)
 	rec["res"], rec["err"] = h, err != nil
 	out.Line(rec)
 }
@@ -103,13 +106,15 @@ func TestVerifC14(t *testing.T) {
 		sets[i] = gtids.ParseGtidSet(s)
 	}
 	hosts := []string{"h0", "h1", "h2", "h3", "h4"}
-	bounds := []int64{0, 1, 60, 100}
-	lagsFor := func(b int64) []int64 { return []int64{0, b - 1, b, b + 1, 2*b + 1, 2*b + 2, 99999999} }
+	bounds := []int64{0, 1000, 60000, 100000, 500} // ms
+	lagsFor := func(b int64) []int64 {
+		return []int64{0, b - 1000, b, b + 1000, 2*b + 1000, 2*b + 2000, 99999999000, b + 300, b - 300, 2*b + 700, 2*b - 400, 250}
+	}
 	// 1. exhaustive: all lists of length 0..2 (quick) / 0..3 (thorough) over a reduced grid
 	maxLen := verifh.Pick(2, 3)
 	redSets := []int{1, 2, 3, 6}
 	for _, b := range bounds[1:] {
-		lags := []int64{0, b, b + 1, 2*b + 2}
+		lags := []int64{0, b, b + 400, 2*b + 2000}
 		var rec func(cur []nodePosition)
 		rec = func(cur []nodePosition) {
 			vEmitList(out, cur, b, "")
@@ -122,7 +127,7 @@ func TestVerifC14(t *testing.T) {
 			for _, si := range redSets {
 				for _, lg := range lags {
 					for pr := int64(0); pr < 3; pr++ {
-						next := append(append([]nodePosition{}, cur...), nodePosition{hosts[len(cur)], sets[si], float64(lg), pr})
+						next := append(append([]nodePosition{}, cur...), nodePosition{hosts[len(cur)], sets[si], float64(lg) / 1000, pr})
 						rec(next)
 					}
 				}
@@ -147,7 +152,7 @@ func TestVerifC14(t *testing.T) {
 			if lg < 0 {
 				lg = 0
 			}
-			ps[j] = nodePosition{hosts[j], sets[si], float64(lg), int64(rnd.Intn(4))}
+			ps[j] = nodePosition{hosts[j], sets[si], float64(lg) / 1000, int64(rnd.Intn(4))}
 		}
 		from := ""
 		if ln > 0 && rnd.Intn(2) == 0 {
